@@ -16,14 +16,14 @@
 /* a visit function stops a traversal with "a non-zero value": any of them, which the traversal must hand back unchanged */
 static const int stopvals[12] = { -3, -2, -1, 11, 1, 2, 3, 256, 65536, -65536, INT_MIN, INT_MAX };
 
-enum { T_INSERT = 1, T_FIND, T_ERASE, T_FOREACH, T_CLEAR, T_SWAP, T_HEIGHT, T_HUGE, T_CHURN, T_GIANT };
+enum { T_INSERT = 1, T_FIND, T_ERASE, T_FOREACH, T_CLEAR, T_SWAP, T_HEIGHT, T_HUGE, T_CHURN, T_GIANT, T_DEEP };
 
 static const char *t_opname(int k)
 {
     switch (k) {
     case T_INSERT: return "insert"; case T_FIND: return "find"; case T_ERASE: return "erase";
     case T_FOREACH: return "foreach"; case T_CLEAR: return "clear"; case T_SWAP: return "swap";
-    case T_HEIGHT: return "height"; case T_HUGE: return "huge"; case T_CHURN: return "churn"; case T_GIANT: return "giant_churn";
+    case T_HEIGHT: return "height"; case T_HUGE: return "huge"; case T_CHURN: return "churn"; case T_GIANT: return "giant_churn"; case T_DEEP: return "deep";
     }
     return "?";
 }
@@ -501,6 +501,83 @@ static void huge_tree(uint64_t nsel, uint64_t seed)
     if (n > maxreach) maxreach = (unsigned)n;
 }
 
+/* ------------------------------------------------------------ very deep (plain binary) trees
+ * A plain binary tree fed a sorted run degenerates into a chain: thousands of levels deep. On the chain hang small random
+ * subtrees ("teeth") on the other side, sparsely all the way down and densely in the last levels. Everything that walks
+ * such a tree with a depth cap, an explicit stack or a parent-pointer walk (foreach, height, clear) meets its worst case here.
+ * The chain goes in with the parent as hint (what find reports for the next key of a sorted run), the teeth unhinted. */
+static size_t deep_mids;
+static int deep_visit(const void *e, cstl_bintree_visit_order_t ord, void *p) { (void)e; (void)p; if (ord == CSTL_BINTREE_VISIT_ORDER_MID || ord == CSTL_BINTREE_VISIT_ORDER_LEAF) deep_mids++; return 0; }
+static void deep_tree(uint64_t sel, uint64_t seed)
+{
+    static const int depths[] = { 4100, 8200, 9000, 16400, 20000, 30000, 5000, 12000 };
+    int D = depths[sel % 8], right = (int)(sel >> 8 & 1), d, maxteeth = D / 16 + 400, nt = 0, prevkey; size_t n = 0, cnt, np = (size_t)D + (size_t)maxteeth * 6 + 8;
+    uint64_t x = seed;
+    static struct cstl_bintree dt; static size_t hmin, hmax;
+    struct telem *pool = malloc(np * sizeof *pool), *prev = NULL;
+    const struct cstl_bintree_node *nd;
+    if (!pool) sim_harness_bug("trees: no memory for a deep tree");
+    huge_pool = pool; huge_np = np;
+    g_cur_ctx = right ? "deep-tree-right-chain" : "deep-tree-left-chain"; g_cur_prop = "C01";
+    memset(&dt, 0x6b, sizeof dt);
+    cstl_bintree_init(&dt, cmp_plain, NULL, offsetof(struct telem, bn));
+#define DEEP_ADD(k, hint) do { struct telem *e_ = &pool[n]; e_->magic = MAGIC; e_->tail = ~MAGIC; e_->id = (int)n; e_->mark = 0; e_->tree = 9; e_->key = (k); \
+        g_inlib = 1; cstl_bintree_insert(&dt, e_, (hint)); g_inlib = 0; n++; } while (0)
+    for (d = 0; d < D; d++) {
+        /* chain keys 32 apart; the teeth of level d get keys strictly between the chain keys of levels d-1 and d */
+        int k = right ? 64 + 32 * d : 64 + 32 * (D - d);
+        DEEP_ADD(k, prev);
+        prev = &pool[n - 1];
+        if (d > 0 && nt < maxteeth && (splitmix64(&x) % 64 == 0 || (d >= D - 24 && splitmix64(&x) % 2 == 0))) {
+            int q, m = 1 + (int)(splitmix64(&x) % 6); unsigned used = 0;
+            for (q = 0; q < m; q++) {
+                int off = 1 + (int)(splitmix64(&x) % 31);
+                if (used >> off & 1) continue;      /* distinct keys: the shape of the tooth is what the insertion order makes it */
+                used |= 1u << off;
+                DEEP_ADD(right ? k - off : k + off, NULL);
+            }
+            nt++;
+        }
+    }
+#undef DEEP_ADD
+    if (cstl_bintree_size(&dt) != n) VIOLP("C01", "size", "deep tree reports size %zu, reference has %zu", cstl_bintree_size(&dt), n);
+    /* in-order walk over the public links without recursion: sorted, every node an element, each once */
+    cnt = 0; prevkey = -1; nd = dt.root;
+    if (nd) while (nd->l) nd = nd->l;
+    while (nd && cnt <= n) {
+        const struct telem *e = (const struct telem *)((const char *)nd - offsetof(struct telem, bn));
+        if (e < pool || e >= pool + n) VIOLP("C01", "foreign_node", "deep tree: a reachable node is not an element");
+        if (e->key <= prevkey) VIOLP("C01", "order", "deep tree: the in-order walk is not increasing at node %zu", cnt);
+        prevkey = e->key; cnt++;
+        if (nd->r) { nd = nd->r; while (nd->l) nd = nd->l; }
+        else { while (nd->p && nd == nd->p->r) nd = nd->p; nd = nd->p; }
+    }
+    if (cnt != n) VIOLP("C01", "reachable_count", "deep tree: %zu nodes reachable, reference has %zu", cnt, n);
+    deep_mids = 0;
+    { static int r2; TRY(r2 = cstl_bintree_foreach(&dt, deep_visit, NULL, (sel >> 9 & 1) ? CSTL_BINTREE_FOREACH_DIR_REV : CSTL_BINTREE_FOREACH_DIR_FWD)); (void)r2; }
+    if (g_aborted) VIOLP("C01", "abort", "foreach over a deep tree aborted");
+    if (deep_mids != n) VIOLP("C01", "foreach_exactly_once", "foreach over a tree %d levels deep met %zu elements, %zu are held", D, deep_mids, n);
+    TRY(cstl_bintree_height(&dt, &hmin, &hmax));
+    if (hmax < (size_t)D || hmax > (size_t)D + 8) VIOLP("C01", "height_api", "deep tree: cstl_bintree_height says %zu, the chain alone is %d levels", hmax, D);
+    g_cur_prop = "C15"; g_cur_ctx = right ? "deep-tree-clear-right-chain" : "deep-tree-clear-left-chain";
+    huge_cleared = 0; huge_np = n;
+    TRY(cstl_bintree_clear(&dt, huge_clear_cb, NULL));
+    if (g_aborted) VIOLP("C15", "abort", "clear of a deep tree aborted");
+    if (huge_cleared != n) {
+        size_t missed = 0, i; for (i = 0; i < n; i++) if (pool[i].mark != -7) missed++;
+        VIOLP("C15", "clear_count", "clear of a tree %d levels deep (%zu elements) called back %s (%zu elements never handed over)", D, n, huge_cleared > n ? "for an element twice or for something that is not an element" : "too few times", missed);
+    }
+    if (cstl_bintree_size(&dt) != 0) VIOLP("C15", "size", "size is %zu after clear", cstl_bintree_size(&dt));
+    pool[0].key = 5; pool[0].mark = 0;
+    TRY(cstl_bintree_insert(&dt, &pool[0], NULL));
+    if (cstl_bintree_size(&dt) != 1 || cstl_bintree_find(&dt, &pool[0], NULL) != &pool[0]) VIOLP("C15", "reuse", "the cleared deep tree is not usable like a fresh one");
+    free(pool); huge_pool = NULL;
+    PROBE("deep_tree"); if (D > 8192) PROBE("deep_tree_8192_levels"); if (D > 16384) PROBE("deep_tree_16384_levels"); if (nt) PROBE("deep_tree_with_teeth");
+    EVT("deep_tree", D, right, n);
+    if (n > maxreach) maxreach = (unsigned)n;
+    g_run.nontrivial = 1;
+}
+
 static size_t giant_mids;
 static void giant_clr(void *e, void *p) { (void)e; (void)p; }
 static int count_visit(const void *e, cstl_bintree_visit_order_t ord, void *p) { (void)e; (void)p; if (ord == CSTL_BINTREE_VISIT_ORDER_MID || ord == CSTL_BINTREE_VISIT_ORDER_LEAF) giant_mids++; return 0; }
@@ -664,6 +741,7 @@ static void t_exec(const plan_t *p)
         g_cur_prop = prop_of(t); g_cur_ctx = ctx_of(t);
         e = NULL; ret = NULL; par = NULL;
         if (o->kind == T_HUGE) { huge_tree(o->a[1], o->a[2]); continue; }
+        if (o->kind == T_DEEP) { deep_tree(o->a[1], o->a[2]); continue; }
         if (o->kind == T_GIANT) { giant_churn((int)(o->a[1] & 1), (unsigned)((o->a[1] >> 1) % 6), o->a[2]); continue; }
         if (o->kind == T_CHURN) {
             /* the n-th repetition: a transient element with a key of its own is inserted and erased 254 ... 65 536 times */
@@ -916,6 +994,13 @@ static void t_gen(prng_t *r, int mode, plan_t *p)
         op_t *o = plan_add(p, T_GIANT);
         p->cfg[CF_NB] = 0; p->cfg[CF_NR] = 1; p->cfg[CF_KEYS] = 2; p->cfg[CF_JUNK] = 1 + prng_below(r, 254); p->cfg[CF_MAXN] = 8;
         o->a[1] = g_gen_index; o->a[2] = prng_next(r);
+        return;
+    }
+    if (mode == 121) {
+        /* very deep plain trees: the run index walks depth x direction x traversal direction */
+        op_t *o = plan_add(p, T_DEEP);
+        p->cfg[CF_NB] = 1; p->cfg[CF_NR] = 0; p->cfg[CF_KEYS] = 2; p->cfg[CF_JUNK] = 1 + prng_below(r, 254); p->cfg[CF_MAXN] = 8;
+        o->a[1] = (g_gen_index % 8) | (g_gen_index / 8 % 4) << 8; o->a[2] = prng_next(r);
         return;
     }
     if (mode == 102) {
